@@ -29,6 +29,10 @@ type C12TypedCase struct {
 	GenDemo val.V           `json:"gendemo_value"`
 	Prog    []byte          `json:"prog"`
 	Inj     []C12Inj        `json:"inj"`
+	// Reuse: after the first build the builder is Reset and assembles a second value of the same type
+	Reuse    bool       `json:"reuse,omitempty"`
+	TV2      tschema.TV `json:"value2"`
+	GenDemo2 val.V      `json:"gendemo_value2"`
 }
 
 func c12TypedCheck(c C12TypedCase, rec *evid.Rec) error {
@@ -89,6 +93,38 @@ func c12TypedCheck(c C12TypedCase, rec *evid.Rec) error {
 		return err
 	}
 	cls := []string{"engine:" + engine, fmt.Sprintf("level:%d", c.Level)}
+	if c.Reuse {
+		tview2, rview2 := c.GenDemo2, c.GenDemo2
+		if c.S != nil {
+			tview2 = tschema.TypeView(c.S, c.Type, c.TV2)
+			var ok bool
+			if rview2, ok = tschema.ReprView(c.S, c.Type, c.TV2); !ok {
+				return nil
+			}
+		}
+		events2 := typedx.StripAbsent(tview2)
+		if c.Level == 1 {
+			events2 = rview2
+		}
+		if err := evid.Guard("Reset", func() error { nb.Reset(); return nil }); err != nil {
+			return fmt.Errorf("%s: %w", what, err)
+		}
+		a2 := &c12Asm{prog: nodes.NewProg(c.Prog), inj: map[int][]C12Inj{}, deferredOK: c.S == nil}
+		if err := evid.Guard("assembling after Reset", func() error { return a2.assemble(nb, events2, 0) }); err != nil {
+			return fmt.Errorf("%s, then Reset and assembling %s: %w", what, events2.Short(200), err)
+		}
+		var n2 datamodel.Node
+		if err := evid.Guard("Build after Reset", func() error { n2 = nb.Build(); return nil }); err != nil {
+			return fmt.Errorf("%s: %w", what, err)
+		}
+		if err := typedx.CheckViews(n2, tview2, rview2, fmt.Sprintf("%s, then Reset and assembling %s: the second node", what, events2.Short(200))); err != nil {
+			return err
+		}
+		if err := typedx.CheckViews(n, tview, rview, what+": after its builder was Reset and reused, the first node"); err != nil {
+			return err
+		}
+		cls = append(cls, "reset-reuse")
+	}
 	if a.injected > 0 {
 		cls = append(cls, "dupkey-rejected")
 	}
@@ -115,7 +151,7 @@ func countMaps2(v val.V) (idx []int) {
 
 var c12Typed = evid.Part[C12TypedCase]{
 	Prop: "C12", Name: "typed", Quick: 3000, Thorough: 300000,
-	Rule: "struct and typed-map assemblers of the typed engines (bindnode over drawn schemas; checked-in generated code of node/gendemo) at type and representation level: a conforming value assembled through drawn call styles with repeated keys (field names, renamed field names, map keys) injected before drawn entries via AssembleEntry / key AssignString / key AssignNode; each must give a repeated-key error and the finished node must satisfy the reference type and representation views as if the rejected calls had not happened; non-trivial = ≥1 rejection; distinct by the whole case",
+	Rule: "struct and typed-map assemblers of the typed engines (bindnode over drawn schemas; checked-in generated code of node/gendemo) at type and representation level: a conforming value assembled through drawn call styles with repeated keys (field names, renamed field names, map keys) injected before drawn entries via AssembleEntry / key AssignString / key AssignNode; each must give a repeated-key error and the finished node must satisfy the reference type and representation views as if the rejected calls had not happened; optionally the builder is then Reset and assembles a second value of the type (both nodes must satisfy their views); non-trivial = ≥1 rejection; distinct by the whole case",
 	Gen: func(t *rapid.T) C12TypedCase {
 		c := C12TypedCase{Level: rapid.IntRange(0, 1).Draw(t, "level"), Prog: rapid.SliceOfN(rapid.Byte(), 0, 12).Draw(t, "prog")}
 		var events val.V
@@ -123,19 +159,23 @@ var c12Typed = evid.Part[C12TypedCase]{
 			m3 := func() val.V {
 				return msg3(val.DrawInt(t, "i", false), val.DrawInt(t, "i", false), val.DrawInt(t, "i", false))
 			}
-			if rapid.Bool().Draw(t, "struct") {
-				c.Type, c.GenDemo = "Msg3", m3()
-			} else {
-				c.Type = "Map"
-				c.GenDemo = val.V{K: val.Map, Ents: []val.Ent{}}
+			mp := func() val.V {
+				v := val.V{K: val.Map, Ents: []val.Ent{}}
 				for i, n := 0, rapid.IntRange(2, 4).Draw(t, "n"); i < n; i++ {
-					c.GenDemo.Ents = append(c.GenDemo.Ents, val.Ent{K: fmt.Sprintf("k%d", i), V: m3()})
+					v.Ents = append(v.Ents, val.Ent{K: fmt.Sprintf("k%d", i), V: m3()})
 				}
+				return v
+			}
+			if rapid.Bool().Draw(t, "struct") {
+				c.Type, c.GenDemo, c.GenDemo2 = "Msg3", m3(), m3()
+			} else {
+				c.Type, c.GenDemo, c.GenDemo2 = "Map", mp(), mp()
 			}
 			events = c.GenDemo
 		} else {
 			s, typ, tv := genSchemaValue(t, tschema.GenOpts{MaxTypes: 5})
 			c.S, c.Type, c.TV = &s, typ, tv
+			c.TV2 = tschema.DrawTV(t, &s, typ, "tv2")
 			events = typedx.StripAbsent(tschema.TypeView(&s, typ, tv))
 			if c.Level == 1 {
 				events, _ = tschema.ReprView(&s, typ, tv)
@@ -147,6 +187,7 @@ var c12Typed = evid.Part[C12TypedCase]{
 				c.Inj = append(c.Inj, C12Inj{At: rapid.SampledFrom(idx).Draw(t, "at"), Pos: rapid.IntRange(1, 6).Draw(t, "pos"), Style: rapid.IntRange(0, 2).Draw(t, "style"), Which: rapid.IntRange(0, 5).Draw(t, "which")})
 			}
 		}
+		c.Reuse = rapid.Bool().Draw(t, "reuse")
 		return c
 	},
 	Check: c12TypedCheck,
